@@ -152,7 +152,7 @@ def make_box(name, n, p=1, extra_row=False):
                     acc.oblige(eng, "O3.value_is_definition", got == want, dict(info, cut=cut, col=j))
             acc.sample(dict(info, accepted_cut=cut))
 
-    return Harness(run, base, sliced=True, timeout_ms=10000, name=f"box {info}")
+    return Harness(run, base, sliced=True, timeout_ms=10000 if (n <= 4 and p == 1) else 40000, name=f"box {info}")
 
 
 def make_malformed(n=4, p=1):
